@@ -31,6 +31,9 @@ def t3(rep, tier, seed):
         cgms = ms if tier == "thorough" else [m for m in ms if len(m) <= 4] + [m for m in ms if len(m) == 5][::2]
         dom = [{"algo": "cg", "values": v, "k": k, "obj": objname, "cg": list(sw)} for sw in CG_SWITCHES for v in cgms for k in range(1, K + 1)]
         dom += [{"algo": "cg", "values": v, "k": k, "obj": objname, "cg": list(sw)} for sw in CG_SWITCHES for v in rnd if len(v) <= 7 for k in (2, 3)]
+        from props._domains import large_value_variants
+        big = large_value_variants([m for m in ms if 3 <= len(m) <= 5][::5])          # sums ~1e7 differing by a few units (tolerance slips)
+        dom += [{"algo": "cg", "values": v, "k": k, "obj": objname, "cg": list(sw)} for sw in (CG_SWITCHES[0], CG_SWITCHES[-1]) for v in big for k in (2, 3)]
         rep.add(H.run_case(f"C02/T3/cg[{objname}]/optimal", "prtpy/partitioning/complete_greedy.py::anytime", T.c02_case, dom, bound + "; 16 switch combinations", chunk=256))
     for algo in ("ckk", "snp"):
         dom = [{"algo": algo, "values": v, "k": k} for v in ms for k in range(1, K + 1)]
